@@ -1560,12 +1560,21 @@ namespace bloch::compiler {
                 if (*right == 0)
                     throw BlochError(ErrorCategory::Semantic, bin->line, bin->column,
                                      "division by zero in constant integer expression");
+                if (*right == -1) {
+                    // INT_MIN / -1 does not fit an int (and traps on the host)
+                    if (*left == std::numeric_limits<int>::min())
+                        throw BlochError(ErrorCategory::Semantic, bin->line, bin->column,
+                                         "integer overflow in constant integer expression");
+                    return -*left;
+                }
                 return *left / *right;
             }
             if (bin->op == "%") {
                 if (*right == 0)
                     throw BlochError(ErrorCategory::Semantic, bin->line, bin->column,
                                      "modulo by zero in constant integer expression");
+                if (*right == -1)
+                    return 0;  // INT_MIN % -1 traps on the host; the remainder is always 0
                 return *left % *right;
             }
             return std::nullopt;
